@@ -407,6 +407,14 @@ def run(ctx):
             jobs.append(({"cfg": cfg, "mode": "loader", "names": ghost}, cfg, "loader", ghost))
             jobs.append(({"cfg": cfg, "mode": "cli", "names": ghost}, cfg, "cli", ghost))
             jobs.append(({"cfg": cfg, "mode": "runner", "names": ghost + one}, cfg, "runner", ghost + one))
+        if i % 3 == 1:
+            # an unknown name after / between / around known ones: every position of the failing entry in the list
+            ghost = ["no-such-server"]
+            jobs.append(({"cfg": cfg, "mode": "runner", "names": one + ghost}, cfg, "runner", one + ghost))
+            jobs.append(({"cfg": cfg, "mode": "loader", "names": one + ghost + one[:0]}, cfg, "loader", one + ghost))
+            if len(names) > 1:
+                mixed = names[:1] + ghost + names[1:] + ["also-missing"]
+                jobs.append(({"cfg": cfg, "mode": "runner", "names": mixed}, cfg, "runner", mixed))
     with cf.ThreadPoolExecutor(min(12, os.cpu_count() or 4)) as ex:
         futs = {}
         for case, cfg, mode, names in jobs:
